@@ -37,7 +37,7 @@
         everything else               no condition; inner nodes: all children closed *)
 From Verif Require Import Base.Prelude Model.CharClass Model.FoldD
   Proofs.CharClassRanges Proofs.CharClassProofs Proofs.CharClassElab Proofs.CharClassFold Proofs.CharClassFoldThm
-  Proofs.CharClassCi Proofs.CharClassCi4 Proofs.CharClassCi5.
+  Proofs.CharClassCi Proofs.CharClassCi3 Proofs.CharClassCi4 Proofs.CharClassCi5 Proofs.CharClassCi6.
 (* imported last: Spec.sem (not the class semantics CharClass.sem) is what [sem] means below *)
 From Verif Require Import Model.Tree Model.Spec Model.CaseLink Proofs.CaseProofs Proofs.CaseLinkProofs.
 
